@@ -210,6 +210,30 @@ def numRel3M (m : NumMode) : Nat → List Member → List Member → List Member
   | _ + 1, _, _, _ => false
 end
 
+/-! ### big documents: the result for `nb` repetitions is the result for `ns` repetitions, scaled
+
+  Dumps with collapsed runs (ocDumpRuns in go/harness/ops_opts_big.go): an array is a list of runs
+  `{"#":count,"v":dump}` of equal consecutive elements. -/
+
+mutual
+/-- equal trees, except that a run of `ns` elements in the small result is a run of `nb` in the big one -/
+def scaleRel (ns nb : Bytes) : JVal → JVal → Bool
+  | .obj [(k1, .num c1), (k2, v1)], .obj [(k1', .num c2), (k2', v2)] =>
+    k1 == k1' && k2 == k2' &&
+      (if k1 == [35] then (c1 == c2 || (c1 == ns && c2 == nb)) else c1 == c2) && scaleRel ns nb v1 v2
+  | .arr as, .arr bs => scaleRelL ns nb as bs
+  | .obj as, .obj bs => scaleRelM ns nb as bs
+  | a, b => leafEq a b
+def scaleRelL (ns nb : Bytes) : List JVal → List JVal → Bool
+  | [], [] => true
+  | a :: as, b :: bs => scaleRel ns nb a b && scaleRelL ns nb as bs
+  | _, _ => false
+def scaleRelM (ns nb : Bytes) : List Member → List Member → Bool
+  | [], [] => true
+  | (ka, a) :: as, (kb, b) :: bs => ka == kb && scaleRel ns nb a b && scaleRelM ns nb as bs
+  | _, _ => false
+end
+
 /-! ### flat struct destination: the whole result is predicted -/
 
 mutual
